@@ -47,10 +47,10 @@ class LabelledRandom:
                 return self.PURPOSES[name], rc
             if name == "next_node":
                 slf = f.f_locals.get("self")
-                cn = type(slf).__name__ if slf is not None else ""
-                if cn in ("Probabilistic",):
+                cns = [c.__name__ for c in type(slf).__mro__] if slf is not None else []
+                if "Probabilistic" in cns:
                     return "route", rc
-                if cn in ("JoinShortestQueue", "LoadBalancing"):
+                if "JoinShortestQueue" in cns:
                     return "jsq", rc
             f = f.f_back
             depth += 1
